@@ -41,57 +41,55 @@ theorem step_eq_table (s : TreeSet) (op : OrdSet.Op) (m : Mem) :
     s.step cmp op m =
       ({ st := (s.t.step cmp (toMapOp op) m).1.st.map mapStat, val := (s.t.step cmp (toMapOp op) m).1.val,
          log := (s.t.step cmp (toMapOp op) m).1.log },
-       { t := (s.t.step cmp (toMapOp op) m).2.1 }, (s.t.step cmp (toMapOp op) m).2.2.1,
+       { s with t := (s.t.step cmp (toMapOp op) m).2.1 }, (s.t.step cmp (toMapOp op) m).2.2.1,
        (s.t.step cmp (toMapOp op) m).2.2.2) := by
   cases op <;> try rfl
   simp only [step, add, TreeTable.step, toMapOp, Option.map_some, add_stat]
 
-def isRemove : OrdSet.Op → Bool
-  | .remove _ => true
-  | _ => false
-
 /-- what one call of the set API guarantees -/
 structure StepOK (cmp : Nat → Nat → Int) (s : TreeSet) (op : OrdSet.Op) (m : Mem) : Prop where
-  /-- same status and callback sequence as the ideal ordered set -/
-  st     : (s.step cmp op m).1.st = (OrdSet.step cmp s.t.abs op (!m.alloc.1)).1.st
-  log    : (s.step cmp op m).1.log = (OrdSet.step cmp s.t.abs op (!m.alloc.1)).1.log
-  /-- same out-value, except that `cc_treeset_remove` hands back the dummy value stored in the table
-  instead of the removed element -/
-  val    : (s.step cmp op m).1.val =
-             if isRemove op then (OrdSet.step cmp s.t.abs op (!m.alloc.1)).1.val.map (fun _ => dummy)
-             else (OrdSet.step cmp s.t.abs op (!m.alloc.1)).1.val
-  abs    : (s.step cmp op m).2.1.t.abs = (OrdSet.step cmp s.t.abs op (!m.alloc.1)).2
+  /-- same status, out-value and callback sequence as the ideal ordered set (`apiOut`: the out-value
+  of `cc_treeset_remove` is the dummy stored in the table instead of the removed element) -/
+  out    : (s.step cmp op m).1 = apiOut op (OrdSet.step cmp s.t.abs op (!(m.allocT s.triple).1)).1
+  abs    : (s.step cmp op m).2.1.t.abs = (OrdSet.step cmp s.t.abs op (!(m.allocT s.triple).1)).2
   inv    : (s.step cmp op m).2.1.Inv cmp
   nofault : (s.step cmp op m).2.2.1.fault = m.fault
-  ledger : (s.step cmp op m).2.2.1.live + s.t.size = m.live + (s.step cmp op m).2.1.t.size
+  ledger : TreeTable.liveOf (s.step cmp op m).2.2.1 s.triple + s.t.size =
+             TreeTable.liveOf m s.triple + (s.step cmp op m).2.1.t.size
+  /-- the set and its table keep their allocator triple -/
+  triple : (s.step cmp op m).2.1.triple = s.triple
+  /-- ledger consistency of the wrapped table is preserved -/
+  owns   : TreeTable.Owns (s.step cmp op m).2.1.t (s.step cmp op m).2.2.1
   cmps   : (s.step cmp op m).2.2.2 ≤ 2 * Nat.log2 (s.t.size + 1) + 2
 
 theorem step_ok (ho : TotalOrder cmp) {s : TreeSet} (h : s.Inv cmp) (op : OrdSet.Op) (m : Mem)
-    (hm : s.t.size + 2 ≤ m.live) : StepOK cmp s op m := by
-  obtain ⟨ko, ka, ki, _, kf, kl, kc⟩ := TreeTable.step_ok ho h.1 (toMapOp op) m hm
-  have hv := spec_values (cmp := cmp) s.t.abs h.2 op (!m.alloc.1)
+    (hm : TreeTable.Owns s.t m) : StepOK cmp s op m := by
+  obtain ⟨ko, ka, ki, kt, _, kf, kl, kw, kc⟩ := TreeTable.step_ok ho h.1 (toMapOp op) m hm
+  obtain ⟨h1, h2, h3⟩ := h
+  rw [h3] at ko ka kl
+  have hv := spec_values (cmp := cmp) s.t.abs h2 op (!(m.allocT s.triple).1)
   have he := step_eq_table (cmp := cmp) s op m
   refine ⟨?_, ?_, ?_, ?_, ?_, ?_, ?_, ?_⟩ <;> rw [he]
-  rotate_left 3
+  rotate_left 1
   · exact ka
-  · refine ⟨ki, ?_⟩
+  · refine ⟨ki, ?_, by show (s.t.step cmp (toMapOp op) m).2.1.triple = s.triple; rw [kt, h3]⟩
     show ∀ e ∈ (s.t.step cmp (toMapOp op) m).2.1.abs, e.2 = dummy
     rw [ka]; exact hv
   · exact kf
   · exact kl
+  · exact kw
   · exact kc
-  · simp only [OrdSet.step, ko]
-  · simp only [OrdSet.step, ko]
-  · simp only [OrdSet.step, ko]
+  · -- the result record
+    simp only [OrdSet.step, ko, apiOut]
     cases op <;> try rfl
     rename_i e
     -- remove: the table's out-value is the stored value of the entry, i.e. the dummy
-    simp only [toMapOp, OrdMap.step, opRemove, Option.map_map]
+    simp only [toMapOp, OrdMap.step, opRemove, isRemove, if_true]
     split
     · rename_i v hl
       simp only [OrdMap.lookup, Option.map_eq_some_iff] at hl
       obtain ⟨x, hx, hx2⟩ := hl
-      have := h.2 x (List.mem_of_find?_eq_some hx)
-      simp [← hx2, this, isRemove]
+      have := h2 x (List.mem_of_find?_eq_some hx)
+      simp [← hx2, this]
     · rfl
 end CC.TreeSet
